@@ -1,5 +1,5 @@
 """Per-property policy: which rules decide which clause, floors, scope, wording for the evidence."""
-from . import rules_conv
+from . import rules_conv, rules_table
 
 import json, os
 
@@ -28,6 +28,26 @@ PROPS = {
         "rules": [
             {"run": rules_conv.run, "floor": 300},
             {"run": rules_conv.run_erange, "floor": 5, "scope": "anchors"},
+            {"run": rules_table.run_typemap, "floor": 120, "scope": "anchors"},
+        ],
+    },
+    "C06": {
+        "explanation": "TYPEMAP: the id<->C type<->size relation stated in scalar_sizes/core_sizes, type_properties<T>::id, mpt_data_converter, "
+                       "mpt_convert_number, mpt_type_int/uint, mpt_msgvalfmt_code/typeid and mpt_iterator_consume is read from the folded AST and all "
+                       "pairs must agree; kind ranges of enum Types disjoint/ordered; interface table slot i holds id base+i; mpt_type_traits() is "
+                       "abstractly evaluated for every id with a row and must reach the table that row lives in. REGRANGE: interval analysis of the four "
+                       "registration functions: every id returned/stored lies in [Base,Max] of its kind; capacity constants equal Max-Base+1. "
+                       "MEMCPYSIZE: memcpy(dst,&obj,sizeof X) copies the whole object.",
+        "not_decided": "uniqueness/stability over registration histories (append-only shape not yet checked), name lookup results, duplicate-name refusal polarity",
+        "assumptions": ["x86_64 type widths from clang TargetInfo"],
+        "technique": "constant-table extraction from the folded AST + sibling agreement; interval analysis of id-producing sites; abstract evaluation of the id dispatch",
+        "level_text": "Every row of the seven id tables in the build is enumerated and cross-checked; the range clause is an interval proof over all paths of the registration "
+                      "functions. Decides the 'correctly described' and 'in the range reserved for their kind' clauses, not uniqueness over histories.",
+        "level_note": "trusts clang constant evaluation; scalar_sizes[] rows are the oracle for id->C type; file-static counters only incremented are assumed non-negative (checked by monotone-counter inference)",
+        "rules": [
+            {"run": rules_table.run_typemap, "floor": 120, "scope": "anchors"},
+            {"run": rules_table.run_regrange, "floor": 6},
+            {"run": rules_table.run_memcpysize, "floor": 3, "ctx": {"files": ["mptcore/types/type_traits.c"]}},
         ],
     },
 }
